@@ -1,12 +1,18 @@
 import AiocoapModel.Basic.Bytes
 /-!
-# CoAP over TCP framing (RFC 8323 §3.2) as implemented in `aiocoap/transports/tcp.py:17-89`
+# CoAP over TCP framing (RFC 8323 §3.2) as implemented in `aiocoap/transports/tcp.py:19-122`
 
-Model of `_extract_message_size`, `_decode_message`, `_encode_length`, `_serialize`, together
-with the part of `aiocoap/options.py` (`Options.decode`/`Options.encode`,
-`_read/_write_extended_field_value`) and `aiocoap/optiontypes.py` (value decoding per option
-format) they call.  This is an own small option walker: the C15 model does not depend on the
-datagram codec of C01.
+Model of `_extract_message_size`, `_decode_signalling_options`, `_decode_message`,
+`_encode_length`, `_serialize`, together with the part of `aiocoap/options.py`
+(`Options.decode`/`Options.encode`, `_read/_write_extended_field_value`) and
+`aiocoap/optiontypes.py` (value decoding per option format) they call.  This is an own small
+option walker: the C15 model does not depend on the datagram codec of C01.
+
+The code modelled is the one after the fix "options of signalling messages received over TCP
+are not read in the formats of request and response options": `_decode_message` walks the
+options of a message with a signalling code (7.xx) with `_decode_signalling_options`, which keeps
+every value as the opaque bytes it arrived as (RFC 8323 §5.2: the option numbers of signalling
+messages are specific to the code), and only those of other messages with `Options.decode`.
 
 Core Lean only.  Recursions that the code does with `while` loops take a fuel argument that is
 initialised with the length of the data (every iteration consumes at least one byte).
@@ -127,8 +133,15 @@ def decodeVal (num : Nat) (raw : Bytes) : Option Bytes :=
   | .uint => some (stripZeros raw)
   | .opaque => some raw
 
+/-- the value of one option as it ends up on the message.  `sig = true`: the walker of
+signalling messages, `optiontypes.OpaqueOption(number, rawdata[:length])` (tcp.py:73) — the bytes
+as they are, whatever the number; `sig = false`: `Options.decode`, the format registered for the
+number (`decodeVal`). -/
+def decodeValFor (sig : Bool) (num : Nat) (raw : Bytes) : Option Bytes :=
+  if sig then some raw else decodeVal num raw
+
 -- ---------------------------------------------------------------------------------------------
--- `Options.decode` (options.py:165-186)
+-- `Options.decode` (options.py:165-190) and `_decode_signalling_options` (tcp.py:52-75)
 
 /-- `_read_extended_field_value` (options.py:12-26); `none` = UnparsableMessage -/
 def readExt (v : Nat) (d : Bytes) : Option (Nat × Bytes) :=
@@ -143,10 +156,13 @@ def readExt (v : Nat) (d : Bytes) : Option (Nat × Bytes) :=
     | _ => none
   else none
 
-/-- the `while rawdata:` loop of `Options.decode`; `cur` is `option_number`.  Result: options in
+/-- the `while rawdata:` loop of `Options.decode` (`sig = false`) and of
+`_decode_signalling_options` (`sig = true`) — the two loops read the same RFC 7252 §3.1 option
+format with the same `_read_extended_field_value` and the same checks and differ only in what
+they make of the value bytes; `cur` is `option_number` / `number`.  Result: options in
 wire order (which is `option_list()` order, numbers never decrease) and the payload.
 `none` = UnparsableMessage.  Fuel: one unit per loop iteration, `data.length` always suffices. -/
-def decodeOptsF : Nat → Nat → Bytes → Option (List Opt × Bytes)
+def decodeOptsF (sig : Bool) : Nat → Nat → Bytes → Option (List Opt × Bytes)
   | _, _, [] => some ([], [])                             -- loop ends, `return b""`
   | 0, _, _ :: _ => none                                  -- (out of fuel: not reached from decodeOpts)
   | fuel + 1, cur, b :: rest =>
@@ -160,17 +176,18 @@ def decodeOptsF : Nat → Nat → Bytes → Option (List Opt × Bytes)
         | some (len, r2) =>
           if r2.length < len then none                    -- "Option announced but absent"
           else
-            match decodeVal (cur + delta) (r2.take len) with
+            match decodeValFor sig (cur + delta) (r2.take len) with
             | none => none
             | some v =>
-              match decodeOptsF fuel (cur + delta) (r2.drop len) with
+              match decodeOptsF sig fuel (cur + delta) (r2.drop len) with
               | none => none
               | some (os, pl) => some (⟨cur + delta, v⟩ :: os, pl)
 
-def decodeOpts (data : Bytes) : Option (List Opt × Bytes) := decodeOptsF data.length 0 data
+def decodeOpts (sig : Bool) (data : Bytes) : Option (List Opt × Bytes) :=
+  decodeOptsF sig data.length 0 data
 
 -- ---------------------------------------------------------------------------------------------
--- `_decode_message` (tcp.py:50-62)
+-- `_decode_message` (tcp.py:78-93)
 
 /-- `_decode_message(data)` for a complete frame; `none` = UnparsableMessage.  (The two other
 `none` branches — size unreadable, code byte missing — would be a TypeError/IndexError in the
@@ -185,7 +202,8 @@ def decodeMessage (data : Bytes) : Option Msg :=
       match data[to - 1]? with
       | none => none
       | some code =>
-        match decodeOpts (data.drop (to + tkl)) with
+        -- tcp.py:87 `if msg.code.is_signalling()` (code ≥ 7.00): opaque option values
+        match decodeOpts (decide (code ≥ 224)) (data.drop (to + tkl)) with
         | none => none
         | some (opts, pl) =>
           some { code := code, token := (data.drop to).take tkl, opts := opts, payload := pl }
